@@ -15,11 +15,15 @@ CLAIMS = {
     "C11": dict(
         engine="pyvc", category="proof", design_ref="DESIGN.md section 4 C11",
         technique="contract-based deductive verification: sidecar contracts on the real source of "
-                  "Packet.append/full/assemble, VCs generated from the AST on every run, z3/cvc5",
+                  "Packet.append/full/assemble and SterilePacket.sterile/append_writer, VCs generated from the AST on "
+                  "every run, z3/cvc5",
         text="Packet.append, Packet.full and Packet.assemble are proved against contracts taken from the "
              "frame layout and the property text for all datagram lists of any length (loop invariant, ghost "
              "offsets) and all field values; every obligation is discharged on every run. The sterile-copy "
-             "clause is decided under C21.",
+             "clause: SterilePacket.sterile is proved relative to the assembled frame (same length, the command "
+             "byte at every recorded writer position is NOP, every other byte is the frame's - any number of "
+             "writers, loop invariant with two ghost parameters), and append_writer records exactly the accepted "
+             "write datagrams (a rejected one leaves no entry).",
         note=PYVC_TRUST + "; type invariant of datagram fields (wire ranges) is a precondition of assemble"),
     "C26": dict(
         engine="bpfvc", category="proof", design_ref="DESIGN.md section 4 C26",
@@ -78,8 +82,12 @@ CLAIMS = {
              "proved for all frames, lengths and counters to re-enable exactly its write datagrams, clear their "
              "working counters, count one error per wrong counter, and to do so only when the frame is long "
              "enough and output is enabled; otherwise frame and counters are untouched. Bounded in the number of "
-             "write datagrams by the layouts checked.",
-        note=BPFVC_TRUST + "; the history clause (c) rests on C22's step contract; layouts are a finite sample"),
+             "write datagrams by the layouts checked. User side: what user space emits is the sterile copy "
+             "(SterilePacket.sterile / append_writer, pyvc, any number of datagrams). The dispatcher's step "
+             "contract, on which the clause about frames that go back unprocessed rests, is re-proved on the "
+             "assembled bytes of EtherXDP.",
+        note=BPFVC_TRUST + "; " + PYVC_TRUST + "; the history argument over the dispatcher's step relation is "
+             "C22's; layouts are a finite sample"),
     "C07": dict(
         engine="bpfvc", category="other", design_ref="DESIGN.md section 4 C07 (Stage A)",
         technique="contract-based deductive verification of generated programs: struct.pack/unpack postconditions "
@@ -131,8 +139,11 @@ CLAIMS = {
         text="For frames with 0..3 datagrams, any counter positions and expected counts, any response bytes and "
              "error count: the error counter rises by exactly the number of datagrams whose 16-bit working counter "
              "differs from the expected count, both bytes of every counter are cleared, every other byte of the "
-             "response is what devices see and what is sent next. Bounded in the number of datagrams; the cycle "
-             "loop of SyncGroupBase.run is not under contract yet.",
+             "response is what devices see and what is sent next. Bounded in the number of datagrams. The expected "
+             "counts come from SterilePacket.append/append_fmmu (re-proved). SyncGroupBase.run: in each of the "
+             "first three cycles, with every combination of response and timeout, the frame put onto the bus is "
+             "the assembled one at first and afterwards the one the last update_devices returned - also when it "
+             "is resent after a timeout (loop unrolled: bounded).",
         note=PYVC_TRUST + "; devices under their own contracts; bounded in datagram count"),
     "C03": dict(
         engine="bpfvc", category="other", design_ref="DESIGN.md section 4 C03 (Stage A)",
@@ -142,9 +153,10 @@ CLAIMS = {
              "several formats and constants, bit tests with &, single- and multi-bit fields, ~, &/| combinations of "
              "depth <= 2, with and without Else, nested and sequenced - are built with the real DSL; each is proved "
              "for all inputs within the property's range precondition: body iff true, Else iff false, execution "
-             "continues. One region (unsigned 8-byte left operand ordered against a signed operand of at most 4 "
-             "bytes) violates the property on the real bytes and is a recorded finding.",
-        note=BPFVC_TRUST + "; bounded in program shape; 32-bit register views excluded (C01 finding)"),
+             "continues. Two regions violate the property on the real bytes and are recorded findings: an unsigned "
+             "8-byte left operand ordered against a signed operand of at most 4 bytes, and a signed 32-bit register "
+             "view compared with a fixed-point operand.",
+        note=BPFVC_TRUST + "; bounded in program shape; two recorded findings"),
     "C25": dict(
         engine="pyvc", category="proof", design_ref="DESIGN.md section 4 C25",
         technique="contract-based deductive verification: the real source of EtherCat.find_free_address / "
@@ -182,7 +194,9 @@ CLAIMS = {
              "equal to the property's formula (typing: / always fixed, // always integer; scaling; dropping to the "
              "destination) for all register and memory contents. Bounded in program shape (depth 1, 8-byte "
              "operands); negative operands of statements that need a division fall into C01's recorded finding "
-             "R-SDIV; comparisons mixing fixed and integer operands are decided under C03.",
+             "R-SDIV; comparisons mixing fixed and integer operands (C03's family, re-proved here, including 32-bit "
+             "registers; one recorded finding: a signed 32-bit register view against a fixed-point operand). "
+             "Concrete decimal samples of both signs decide the conversions where the IEEE model times out.",
         note=PYVC_TRUST + "; " + BPFVC_TRUST + "; binary64 standard model assumed; products and unsigned quotients "
              "uninterpreted in the Stage-A proofs, lemma L-MUL-U links them to exact arithmetic"),
     "C04": dict(
@@ -292,7 +306,9 @@ CLAIMS = {
         technique="contract-based deductive verification: the real source of Terminal.sdo_read / sdo_write against "
                   "the assumed contract of a protocol-conformant SDO server behind mbx_send / mbx_recv (ghost "
                   "server state, loop invariant over segments, region predicates for recorded findings), z3",
-        text="Upload: for values of any length, any mailbox sizes, any split chosen by the server, with or without "
+        text="Transport: mbx_recv reads the receive mailbox from its first to its last byte and returns the mail's "
+             "type and exactly its declared service data (mbx_send is under C15). "
+             "Upload: for values of any length, any mailbox sizes, any split chosen by the server, with or without "
              "subindex and with unrelated mail before the response, sdo_read returns exactly the terminal's value "
              "bytes; segment toggles alternate from 0 (obligation at every request), every message fits the mailbox "
              "and is sent under the mailbox lock - any number of segments through the loop invariant. Download: the "
